@@ -849,15 +849,19 @@ Definition dflt_list {A} (o : option (list A)) : list A := match o with Some l =
 (** per-part closedness (to be discharged by the part owners: [parse_glif] yields valid glyphs,
     [FontInfo::validate] yields valid info with valid, distinct guideline identifiers, the plist
     reader yields representable values) *)
-Record sig_closed : Prop := {
+Record sig_closed0 : Prop := {
   cl_info : part_closed (P_info S); cl_lib : part_closed (P_lib S);
   cl_groups : part_closed (P_groups S); cl_kerning : part_closed (P_kerning S);
   cl_lc : part_closed (P_lc S); cl_contents : part_closed (P_contents S);
-  cl_li : part_closed (P_li S); cl_glif : part_closed (P_glif S);
+  cl_li : part_closed (P_li S);
   meta_wf_norad : forall mi, wf (P_meta S) {| m_creator := Some NORAD_CREATOR; m_version := 3; m_minor := mi |};
-  info_ids_wf : forall si, wf (P_info S) si -> forall g, In g (dflt_list (snd si)) ->
+  info_ids_wf : forall c si, dec (P_info S) c = Some si -> forall g, In g (dflt_list (snd si)) ->
                 forall id, snd g = Some id -> wf_key S id;
-  info_ok_nodup : forall i : info, info_ok S i = true -> NoDup (some_ids (map g_id (guides_of i)));
+  info_ok_nodup : forall i : info, info_ok S i = true -> NoDup (some_ids (map g_id (guides_of i))) }.
+(** ... plus the glif reader: what it returns is in the writer's domain, whatever name it is given *)
+Record sig_closed : Prop := {
+  cl_base : sig_closed0;
+  cl_glif : part_closed (P_glif S);
   wf_set_name : forall n g, wf (P_glif S) g -> wf (P_glif S) (set_name S n g) }.
 
 End Model.
